@@ -210,6 +210,10 @@ func (p *Pool) PrepareContext(ctx context.Context, q string) (*sql.Stmt, error) 
 	if !p.acquire(false, true) {
 		return nil, ErrAborted
 	}
+	p.record(Event{Kind: "prepare_start", SQL: simdrv.NormSQL(q)})
+	if p.Sched != nil {
+		p.Sched.Yield("pool:prepare-inflight")
+	}
 	st, err := p.DB.PrepareContext(ctx, q)
 	if p.Bound > 0 && p.Sched != nil {
 		p.dropSlot()
@@ -316,6 +320,7 @@ var (
 
 func (t *Tx) PrepareContext(ctx context.Context, q string) (*sql.Stmt, error) {
 	t.p.enter("tx-prepare")
+	t.p.record(Event{Kind: "prepare_start", SQL: simdrv.NormSQL(q), InTx: true})
 	st, err := t.tx.PrepareContext(ctx, q)
 	t.p.record(Event{Kind: "prepare", SQL: simdrv.NormSQL(q), Ctx: t.p.Drv.CtxTag(ctx), Err: errStr(err), InTx: true})
 	t.p.leave("tx-prepare")
